@@ -10,7 +10,7 @@ DRIVER = 'drv_c20'
 HARNESS = 'c20.cpp'
 SOURCES = ['src/containers/boundingbox/AxisAlignedBoundingBox.cpp', 'src/containers/boundingbox/OrientedBoundingBox.cpp',
            'src/pointset/algorithms/PointSetPreconditioner.cpp']
-PROOF_MODULES = ['RomeaProofs.Properties.C20', 'RomeaProofs.Bridge.C20', 'RomeaProofs.Bridge.C20Cor']
+PROOF_MODULES = ['RomeaProofs.Properties.C20', 'RomeaProofs.Bridge.C20', 'RomeaProofs.Bridge.C20Cor', 'RomeaProofs.Bridge.C20Homog', 'RomeaProofs.Bridge.C20HomogCor', 'RomeaProofs.Bridge.C20Cont', 'RomeaProofs.Bridge.C20ContCor']
 TRUSTED = ['C++ harness harness/c20.cpp (builds the Eigen objects from the op tokens, prints members through the public getters)',
            'the order in which the compiled Eigen kernel adds the three terms of R^T (p - c) (model parameter Sum3; chosen per '
            'scalar type in the driver, irrelevant over the reals)']
@@ -677,14 +677,26 @@ def _box(T, D, suf):
     ]
 
 
+_VEV = 'romea::core::VectorOfEigenVector'
+
+
+def _vec_targs(kind, T, D):
+    return 'std::vector<Eigen::%s<%s, %d, 1, 0>, Eigen::aligned_allocator<Eigen::%s<%s, %d, 1, 0>>>' % (kind, T, D, kind, T, D)
+
+
 BRIDGE_SPEC = {
     'id': 'C20',
+    # EigenContainers.hpp min / max / mean (round b4): `for (auto point : points)` is a structural recursion on the list of points
+    'headers': ['romea_core_common/containers/Eigen/EigenContainers.hpp'],
+    'range_for': True,
     'sources': ['src/containers/boundingbox/AxisAlignedBoundingBox.cpp', 'src/containers/boundingbox/OrientedBoundingBox.cpp',
                 'src/pointset/algorithms/PointSetPreconditioner.cpp'],
     # the member functions of the header-only Interval are instantiated only when used
     'extra': ['template class romea::core::Interval<double, 1>;', 'template class romea::core::Interval<double, 2>;',
               'template class romea::core::Interval<double, 3>;', 'template class romea::core::Interval<float, 2>;',
-              'template class romea::core::Interval<float, 3>;'],
+              'template class romea::core::Interval<float, 3>;'] + [
+        'template Eigen::Array%s romea::core::%s(const %s<Eigen::Array%s> &);' % (t, f, _VEV, t) for t in ('2d', '3d', '3f') for f in ('min', 'max')] + [
+        'template Eigen::Vector%s romea::core::mean(const %s<Eigen::Vector%s> &);' % (t, _VEV, t) for t in ('2d', '3d', '3f')],
     'imports': ['RomeaModel.Rotation'],       # DoubleConv, should an edit introduce a float <-> double conversion
     'opens': ['Romea.Rotation'],
     'functions': _box('double', 2, '_d2') + _box('double', 3, '_d3') + _box('float', 2, '_f2') + _box('float', 3, '_f3') + [
@@ -694,6 +706,21 @@ BRIDGE_SPEC = {
         {'cxx': 'PointSetPreconditioner::compute', 'record': 'PointSetPreconditioner<Eigen::Matrix<double, 3, 1, 0>>', 'suffix': '_3d'},
         {'cxx': 'PointSetPreconditioner::compute', 'record': 'PointSetPreconditioner<Eigen::Matrix<float, 2, 1, 0>>', 'suffix': '_2f'},
         {'cxx': 'PointSetPreconditioner::compute', 'record': 'PointSetPreconditioner<Eigen::Matrix<float, 3, 1, 0>>', 'suffix': '_3f'},
+        # leftovers (round b4): the four homogeneous-coordinate instantiations
+        {'cxx': 'PointSetPreconditioner::compute', 'record': 'PointSetPreconditioner<romea::core::HomogeneousCoordinates2<double>>', 'suffix': '_h2d'},
+        {'cxx': 'PointSetPreconditioner::compute', 'record': 'PointSetPreconditioner<romea::core::HomogeneousCoordinates3<double>>', 'suffix': '_h3d'},
+        {'cxx': 'PointSetPreconditioner::compute', 'record': 'PointSetPreconditioner<romea::core::HomogeneousCoordinates2<float>>', 'suffix': '_h2f'},
+        {'cxx': 'PointSetPreconditioner::compute', 'record': 'PointSetPreconditioner<romea::core::HomogeneousCoordinates3<float>>', 'suffix': '_h3f'},
+        # EigenContainers.hpp (round b4)
+        {'cxx': 'min', 'targs': _vec_targs('Array', 'double', 2), 'suffix': '_a2d'},
+        {'cxx': 'max', 'targs': _vec_targs('Array', 'double', 2), 'suffix': '_a2d'},
+        {'cxx': 'mean', 'targs': _vec_targs('Matrix', 'double', 2), 'suffix': '_v2d'},
+        {'cxx': 'min', 'targs': _vec_targs('Array', 'double', 3), 'suffix': '_a3d'},
+        {'cxx': 'max', 'targs': _vec_targs('Array', 'double', 3), 'suffix': '_a3d'},
+        {'cxx': 'mean', 'targs': _vec_targs('Matrix', 'double', 3), 'suffix': '_v3d'},
+        {'cxx': 'min', 'targs': _vec_targs('Array', 'float', 3), 'suffix': '_a3f'},
+        {'cxx': 'max', 'targs': _vec_targs('Array', 'float', 3), 'suffix': '_a3f'},
+        {'cxx': 'mean', 'targs': _vec_targs('Matrix', 'float', 3), 'suffix': '_v3f'},
     ],
 }
 
